@@ -129,9 +129,15 @@ fn sparse_exhaustive(ctx: &mut Ctx) {
                 let d_max = if depth >= 5 && u >= 4 { 4 } else { depth };
                 for d in 1..=d_max {
                     let total = (alphabet.len() as u64).pow(d as u32);
-                    for code in 0..total {
-                        index += 1;
-                        if !ctx.mine(index) { continue; }
+                    // Stride directly to this shard's codes (index = base + code + 1 must be owned by the shard).
+                    let base = index;
+                    index += total;
+                    let n = ctx.nshards as u64;
+                    let mut code = (ctx.shard as u64 + n - ((base + 1) % n)) % n;
+                    while code < total {
+                        let this = code;
+                        code += n;
+                        let code = this;
                         if !ctx.begin_case() { continue; }
                         let (mut b, mut m) = match s_new(u, c, multiset) {
                             Ok(Some(x)) => x,
@@ -277,9 +283,14 @@ fn rl_exhaustive(ctx: &mut Ctx) {
     let mut index = 0u64;
     let mut sequences = 0u64;
     for d in 1..=depth {
-        for code in 0..(alphabet.len() as u64).pow(d as u32) {
-            index += 1;
-            if !ctx.mine(index) { continue; }
+        let total = (alphabet.len() as u64).pow(d as u32);
+        let base = index;
+        index += total;
+        let n = ctx.nshards as u64;
+        let mut next = (ctx.shard as u64 + n - ((base + 1) % n)) % n;
+        while next < total {
+            let code = next;
+            next += n;
             if !ctx.begin_case() { continue; }
             let mut b = RLBuilder::new();
             let mut m = RModel { len: 0, ones: 0, runs: Vec::new() };
